@@ -54,7 +54,20 @@ func reachingDefs(info *types.Info, body *ast.BlockStmt) *reachInfo {
 				d := reachDef{stmt: x, eff: x.End()}
 				switch {
 				case x.Tok != token.ASSIGN && x.Tok != token.DEFINE:
-					// op=: value unknown here
+					// x op= e holds x op e, with the x on the right read as what reached this statement
+					if op, isOp := opOfAssign[x.Tok]; isOp && len(x.Lhs) == 1 && len(x.Rhs) == 1 {
+						use := &ast.Ident{NamePos: id.NamePos, Name: id.Name}
+						info.Uses[use] = o
+						if tv, ok := info.Types[id]; ok {
+							info.Types[use] = tv
+						} else {
+							info.Types[use] = types.TypeAndValue{Type: o.Type()}
+						}
+						be := &ast.BinaryExpr{X: use, OpPos: x.TokPos, Op: op, Y: &ast.ParenExpr{Lparen: x.Rhs[0].Pos(), X: x.Rhs[0], Rparen: x.Rhs[0].End()}}
+						info.Types[be] = types.TypeAndValue{Type: o.Type()}
+						info.Types[be.Y] = info.Types[x.Rhs[0]]
+						d.def = localDef{be, 0, 1}
+					}
 				case len(x.Rhs) == len(x.Lhs):
 					d.def = localDef{x.Rhs[i], 0, 1}
 				case len(x.Rhs) == 1:
